@@ -36,6 +36,9 @@ func (p *Pool) Get() any {
 		}
 		return nil
 	}
+	// a scheduling point: what another goroutine does with the pool (and with an object it got
+	// from it) between this Get and the matching Put is part of the explored behaviour
+	vsched.Point("Pool.Get")
 	p.mu.Lock()
 	if p.epoch != e {
 		p.epoch, p.items = e, nil
@@ -66,6 +69,7 @@ func (p *Pool) Put(x any) {
 	}
 	p.items = append(p.items, x)
 	p.mu.Unlock()
+	vsched.Point("Pool.Put (returned)")
 }
 
 type Once = sync.Once
